@@ -269,6 +269,36 @@ def r09_8(ck: Check) -> None:
                    "active peers = connected peers that completed the greeting in both directions")
 
 
+def r09_9(ck: Check) -> None:
+    from .common import rule_eq
+    rule_eq(ck, "R09.9", "skepticoin.datatypes.Block", ["header", "transactions"], "`block == new head` compares content")
+    rule_eq(ck, "R09.9", "skepticoin.datatypes.BlockHeader", ["summary", "pow_evidence"], "")
+    s = ck.summ(RP + "send_message", 0)
+    sp = Spec(s, ("self", "message", "prev"))
+    hdr = [e for e in s.events if e.kind == "call" and "new:skepticoin.networking.messages.MessageHeader" in e.targets]
+    want = sp.term("MessageHeader(int(time()), self._get_msg_id(), in_response_to=(0 if prev is None else prev.id), "
+                   "context=(_new_context() if prev is None else prev.context))")
+    construct = "send_message: in_response_to = id of the message answered, 0 for unsolicited messages"
+    if len(hdr) == 1 and hdr[0].term == want:
+        ck.ok("R09.9", construct, "a relayed block carries in_response_to == 0, a requested one does not", hdr[0].loc)
+    else:
+        ck.violated("R09.9", construct, "header is built as %s" % [show(e.term)[:200] for e in hdr], s.fi.loc)
+    g = ck.summ(RP + "handle_get_data_message_received", 0)
+    spg = Spec(g, ("self", "header", "m"))
+    snd = [e for e in g.events if e.kind == "call" and RP + "send_message" in e.targets]
+    if len(snd) == 1 and len(snd[0].term[2]) == 2 and snd[0].term[2][1] == spg.term("header"):
+        ck.ok("R09.9", "a requested block is sent as a response to the request (prev_header = the request's header)", "", snd[0].loc)
+    else:
+        ck.violated("R09.9", "a requested block is sent as a response to the request (prev_header = the request's header)",
+                    "%s" % [show(e.term)[:120] for e in snd], g.fi.loc)
+    b = ck.summ(NM + "broadcast_message", 0)
+    sb = [e for e in b.events if e.kind == "call" and e.parts and e.parts[0][0] == "a" and e.parts[0][2] == "send_message"]
+    if len(sb) == 1 and len(sb[0].term[2]) == 1:
+        ck.ok("R09.9", "relayed data is sent unsolicited (no prev_header)", "", sb[0].loc)
+    else:
+        ck.violated("R09.9", "relayed data is sent unsolicited (no prev_header)", "%s" % [show(e.term)[:120] for e in sb], b.fi.loc)
+
+
 def check(ck: Check) -> None:
     ck.explanations.append(
         "C09: typestate automaton (duplicate test, orphan drop, structural validation, apply, buffer, in-state validation, publish | roll back) "
@@ -278,6 +308,7 @@ def check(ck: Check) -> None:
     ck.run("R09.5", "buffer alias agreement", lambda: r09_5(ck))
     ck.run("R09.6", "relay exactly once", lambda: r09_6(ck))
     ck.run("R09.8", "relay fan-out", lambda: r09_8(ck))
+    ck.run("R09.9", "what 'outside bulk download' and 'is the new head' mean", lambda: r09_9(ck))
     ck.assume("each delivery is one run of the handler from a state satisfying what the previous run re-established (inductive reading); "
               "outside bulk download last_known_valid_coinstate is the state already served, so the rollback's pool cleanup is the identity")
     ck.assume("failures that cannot depend on the delivered block (lock, logger, sqlite environment) are not 'rejections'")
